@@ -45,6 +45,33 @@ open MdIt.Inline
 #check @skipStep_records_link
 #check @parseLinkLabel_replay
 #check @parseLink_replay_inline
+#check @skip_top
+#check @tokStep_top
+#check @top_total
+#check @parseInlineG_eq
+#check @parseInline_total_of_nested
+#check @entryP_NF
+#check @flat_L2
+#check @real_silent_verdict
+#check @real_declines
+#check @emph_real_L2
+#check @back_L2
+#check @back_L2_none
+#check @parseLinkL2_link
+#check @parseLinkL2Part_link
+#check @witness_summary
+#check @walk_below_bracket
+#check @just_unit_at_closer
+#check @just_at_bracket
+#check @outer_step
+#check @pwalk_below
+#check @pwalk_through
+#check @pwalk_shrink
+#check @pwalk_det
+#check @pwalk_en
+#check @labelLoop_hits
+#check @parseLinkLabel_hits
+#check @parseLink_hits
 
 #print axioms lookahead_guard_free
 #print axioms skip_guard_free
@@ -90,3 +117,30 @@ open MdIt.Inline
 #print axioms skipStep_records_link
 #print axioms parseLinkLabel_replay
 #print axioms parseLink_replay_inline
+#print axioms skip_top
+#print axioms tokStep_top
+#print axioms top_total
+#print axioms parseInlineG_eq
+#print axioms parseInline_total_of_nested
+#print axioms entryP_NF
+#print axioms flat_L2
+#print axioms real_silent_verdict
+#print axioms real_declines
+#print axioms emph_real_L2
+#print axioms back_L2
+#print axioms back_L2_none
+#print axioms parseLinkL2_link
+#print axioms parseLinkL2Part_link
+#print axioms witness_summary
+#print axioms walk_below_bracket
+#print axioms just_unit_at_closer
+#print axioms just_at_bracket
+#print axioms outer_step
+#print axioms pwalk_below
+#print axioms pwalk_through
+#print axioms pwalk_shrink
+#print axioms pwalk_det
+#print axioms pwalk_en
+#print axioms labelLoop_hits
+#print axioms parseLinkLabel_hits
+#print axioms parseLink_hits
